@@ -126,7 +126,7 @@ def run(ctx):
     nontriv = lambda c: sum(1 for l in c if l.split()[0] in ('insf', 'ins', 'rmmax', 'prunef', 'pruned', 'batch')) >= 3 and not stref.simulate(c)[-3].startswith('n 0 ')
     for k, name in OPTS.items():
         cases = [gen_case(ctx.rng, contig=k in CONTIG, zero=k in ZERO, maxlen=30 if thorough else 14) for _ in range(n)]
-        vlib.correspondence(ctx, name, [exes['hST%d' % k]], drv, cases, nontrivial=nontriv, keep_prefix=2 if k in CONTIG else 1, oracle=stref.oracle, valid=stref.valid)
+        vlib.correspondence(ctx, name, [exes['hST%d' % k]], drv, cases, nontrivial=nontriv, keep_prefix=2 if k in CONTIG else 1, oracle=stref.oracle, valid=stref.valid_contig if k in CONTIG else stref.valid)
     ex = exhaustive_cases(3 if thorough else 2)
     for k in (0, 1):
         vlib.correspondence(ctx, OPTS[k] + '_exhaustive_len%d' % (3 if thorough else 2), [exes['hST%d' % k]], drv, ex, keep_prefix=1, oracle=stref.oracle, valid=stref.valid)
@@ -136,7 +136,7 @@ def run(ctx):
             e = sexes.get('hST%d_san' % k)
             if not e: ctx.notes.append('sanitizer build failed for ' + name); continue
             cases = [gen_case(ctx.rng, contig=k in CONTIG, zero=k in ZERO, maxlen=20) for _ in range(300)]
-            vlib.correspondence(ctx, name + '_asan_ubsan', [e], drv, cases, nontrivial=nontriv, keep_prefix=2 if k in CONTIG else 1, oracle=stref.oracle, valid=stref.valid)
+            vlib.correspondence(ctx, name + '_asan_ubsan', [e], drv, cases, nontrivial=nontriv, keep_prefix=2 if k in CONTIG else 1, oracle=stref.oracle, valid=stref.valid_contig if k in CONTIG else stref.valid)
     ctx.extra['partial'] = PARTIAL
 
 
